@@ -669,7 +669,8 @@ let rec judge_case (u : uni) (case : sx) (obs : sx list) : verdict =
             List.iter2 (fun c r ->
               let sub = judge_case u c (match r with L l -> l | a -> [a]) in
               List.iter2 (fun t d -> fail v t d) (List.rev sub.tags) (List.rev sub.detail)) cs rs
-        | [L [A "deadlock"]] -> fail v "prop-deadlock" "goroutines did not finish within 60 s"
+        | [L [A "deadlock"]] -> fail v "prop-deadlock" "after 60 s every remaining goroutine is parked in a synchronisation primitive"
+        | [L [A "slow"]] -> fail v "corr-slow" "goroutines still running after 10 minutes (not parked): slow, not shown deadlocked"
         | _ -> fail v "harness" "unparsable observation")
    | _ -> fail v "harness" "unknown case");
   v
